@@ -332,10 +332,17 @@ def assemble(unit_cfg, src="/repo/src"):
         side["items"].append({"kind": it["kind"], "key": it["key"], "file": it["file"], "line": it["line"], "fns": [f["key"] for f in it["fns"]]})
         pos = 0
         fn_starts = {}
+        skipping = None
         for m in MARK.finditer(text):
-            out.add(text[pos:m.start()])
+            if skipping is None:
+                out.add(text[pos:m.start()])
             pos = m.end()
             tag = m.group(1).split(":")
+            if skipping is not None:
+                # inside the body of a function that is left out on this tree: nothing is copied until its closing brace
+                if tag == [skipping, "BODYEND"]:
+                    skipping = None
+                continue
             if tag[0].startswith("I"):
                 extra = itemsc.get(it["key"])
                 if extra:
@@ -394,7 +401,14 @@ def assemble(unit_cfg, src="/repo/src"):
                                                     "line_start": base + a, "line_end": base + b, "text": " ".join(l.strip() for l in c.text if l.strip())})
                         if fc.requires and not fc.no_canary:
                             canary_specs.append((fi, fc, it))
+                elif what == "BODYEND":
+                    pass
                 elif what == "ENTRY":
+                    if str(unit_cfg.get("assume", {}).get(fi["key"], "")).startswith("NOT VERIFIED ON THIS TREE"):
+                        # the body does not even pass the Rust front end of the unit (helper not extracted, construct outside the rewrite rules): left out
+                        out.add(" unimplemented!() ")
+                        skipping = tag[0]
+                        continue
                     if fc is not None and fc.entry and not assumed_fn:
                         out.add("\n" + "\n".join(fc.entry) + "\n")
                 elif what == "TAIL":
